@@ -49,33 +49,33 @@ LEVEL_NOTE = "no re-entrant callbacks, no self-returning callbacks, no waits-on 
 
 KNOWN_STRANDED = "Deferred:callbacks-stranded-behind-paused-chained-Deferred"
 
-def _fam(n, kinds, behs, pairs, depth, pauses=2, tpairs=99):
-    return dict(n=n, kinds=kinds, behs=behs, pairs=pairs, depth=depth, pauses=pauses, tpairs=tpairs)
+def _fam(n, kinds, behs, pairs, depth, pauses=2, tpairs=99, sub=False):
+    return dict(n=n, kinds=kinds, behs=behs, pairs=pairs, depth=depth, pauses=pauses, tpairs=tpairs, sub=sub)
 
 
 # one BFS per family (cross-shard splitting of one BFS re-explores most states, measured 6x waste):
-# kinds c=addCallback e=addErrback b=addBoth p=addCallbacks; behs v=value x=raise f=return Failure (+ d_j always)
+# kinds c=addCallback e=addErrback b=addBoth p=addCallbacks(cb, eb) n=addCallbacks(cb); sub=Deferred subclass; behs v=value x=raise f=return Failure (+ d_j always)
 CFG = {
     "quick": {
         "2-deep": _fam(2, "ceb", "vx", 2, 9),
         "2-deep3": _fam(2, "ceb", "vx", 3, 7),
-        "2-pairs": _fam(2, "cp", "vxf", 3, 8),
-        "2-full": _fam(2, "cebp", "vxf", 2, 6),
+        "2-pairs": _fam(2, "np", "vxf", 3, 8),
+        "2-full": _fam(2, "cebp", "vxf", 2, 6, sub=True),
         "2-pauses": _fam(2, "b", "vx", 2, 10, pauses=4),
         "3-mid": _fam(3, "ceb", "vx", 2, 7, tpairs=4),
         "3-full": _fam(3, "cebp", "vxf", 2, 6, tpairs=4),
-        "3-cb": _fam(3, "cb", "vx", 2, 8, tpairs=4),
+        "3-cb": _fam(3, "cb", "vx", 2, 8, tpairs=4, sub=True),
         "3-structure": _fam(3, "b", "v", 2, 11, pauses=3),
         "4-structure": _fam(4, "b", "v", 1, 9),
     },
     "thorough": {
         "2-deep": _fam(2, "ceb", "vx", 3, 10),
-        "2-pairs": _fam(2, "cp", "vxf", 3, 10),
-        "2-full": _fam(2, "cebp", "vxf", 3, 8),
-        "2-pauses": _fam(2, "b", "vx", 3, 12, pauses=4),
+        "2-pairs": _fam(2, "np", "vxf", 3, 10),
+        "2-full": _fam(2, "cebp", "vxf", 3, 7, sub=True),
+        "2-pauses": _fam(2, "b", "vx", 3, 14, pauses=5),
         "3-mid": _fam(3, "ceb", "vx", 2, 9),
-        "3-full": _fam(3, "cebp", "vxf", 2, 8, tpairs=5),
-        "3-cb": _fam(3, "cb", "vx", 3, 9),
+        "3-full": _fam(3, "cebp", "vxf", 2, 7, tpairs=5),
+        "3-cb": _fam(3, "cb", "vx", 3, 9, sub=True),
         "3-structure": _fam(3, "b", "v", 3, 14, pauses=3),
         "4-structure": _fam(4, "b", "v", 2, 10),
     },
@@ -227,7 +227,7 @@ class Model:
             elif M.fired:
                 self.flags.add("add-while-paused-fired")
             c = self.ncid
-            if kind == "c":
+            if kind == "c" or kind == "n":
                 M.pending.append(("pair", kind, c, None))
                 self.ncid += 1
             elif kind == "e":
@@ -297,13 +297,27 @@ def _quiet():
             pass
 
 
+_sub = []
+
+
+def _subclass():
+    if not _sub:
+        from twisted.internet.defer import Deferred
+
+        class SubDeferred(Deferred):
+            pass
+        _sub.append(SubDeferred)
+    return _sub[0]
+
+
 class St:
     def __init__(self, cfg):
         from twisted.internet.defer import Deferred
         _quiet()
         self.cfg = cfg
         self.n = cfg["n"]
-        self.d = [Deferred() for _ in range(self.n)]
+        cls = _subclass() if cfg.get("sub") else Deferred
+        self.d = [cls() for _ in range(self.n)]
         self.ids = {id(d): i for i, d in enumerate(self.d)}
         self.model = Model(self.n)
         self.rlog = []         # this step: (i, cid, input)
@@ -332,9 +346,12 @@ def classify(st, r):
 def mkfn(st, i, cid, slot):
     from twisted.python.failure import Failure
 
-    def fn(arg):
+    def fn(arg, *a, **kw):
         st.count[cid] = st.count.get(cid, 0) + 1
         st.rlog.append((i, cid, classify(st, arg)))
+        if a != (cid,) or kw != {"k": cid}:
+            st.bad.append(("Deferred:callback-extra-arguments-mismatch:" + slot,
+                           "callback #%d registered with (%d, k=%d) was called with %r %r" % (cid, cid, cid, a, kw)))
         beh = st.script.get(cid, "v")
         kind = beh[0]
         tok = (kind, cid)
@@ -366,13 +383,16 @@ def apply(st, ev):
     try:
         if op == "add":
             if kind == "c":
-                r = d.addCallback(mkfn(st, i, c, "c"))
+                r = d.addCallback(mkfn(st, i, c, "c"), c, k=c)
             elif kind == "e":
-                r = d.addErrback(mkfn(st, i, c, "e"))
+                r = d.addErrback(mkfn(st, i, c, "e"), c, k=c)
             elif kind == "b":
-                r = d.addBoth(mkfn(st, i, c, "b"))
+                r = d.addBoth(mkfn(st, i, c, "b"), c, k=c)
+            elif kind == "n":
+                r = d.addCallbacks(mkfn(st, i, c, "n"), None, (c,), {"k": c})
             else:
-                r = d.addCallbacks(mkfn(st, i, c, "p"), mkfn(st, i, c + 1, "q"))
+                r = d.addCallbacks(mkfn(st, i, c, "p"), mkfn(st, i, c + 1, "q"),
+                                   (c,), {"k": c}, (c + 1,), {"k": c + 1})
             if r is not d:
                 st.bad.append(("Deferred:add-does-not-return-self", "add on d%d returned %r" % (i, r)))
         elif op == "pause":
